@@ -146,9 +146,9 @@ def _prove(reg, name):
     Ep = z3.substitute(E, *subs_x)
     tried = 0
     import time as _t
-    t_end = _t.time() + (180 if reg.tier == "thorough" else 45)
+    t_end = _t.process_time() + (180 if reg.tier == "thorough" else 60)
     for (da, db, dc), desc in cands[:60]:
-        if _t.time() > t_end:
+        if _t.process_time() > t_end:
             return False, {"reason": "time budget for the direction search exhausted after %d candidates" % tried}
         tried += 1
         sub = [(a, da), (c, dc)] + ([(b, db)] if db is not None else [])
